@@ -33,6 +33,14 @@ PROPS = {
                 claim='table_decommit is proved to succeed exactly when the column count fits u32, cells = columns x queries, and the vector decommitment of the row leaves (Montgomery cells; single column unhashed; poseidon_many or masked digest of concatenated be32 cells chosen by the depth height+1 friendly rule) succeeds.',
                 technique='exact (<=>) postcondition on table_decommit, functional postcondition + loop invariant on generate_vector_queries',
                 note='The two iterator chains (into_iter().map().collect(), extend(flat_map)) enter through hoisting rules with assumed std semantics (A-iter).'),
+    'C06': dict(quick=['core'], thorough=['core'],
+                claim='The FRI verifier functions are proved equal to mathematical walks: fri_formula2/4/8/16 = the k-fold composition fold_spec of the one-step fold (omega constants proved to be inverse subgroup generators, the 16 group literals proved to be the order-16 subgroup in bit-reversed order); coset gathering, next-layer computation, Horner evaluation and first-layer translation match their specs. The algebraic fold identity and completeness for an honest prover: see evidence (lemma status).',
+                technique='functional postconditions + loop invariants on fri_formula*, compute_coset_elements, compute_next_layer, horner_eval, gather_first_layer_queries; compute_only lemmas for constants',
+                note='Not decided: end-to-end acceptance of an honest prover (needs a prover model).'),
+    'C07': dict(quick=['core'], thorough=['core'],
+                claim='fri_verify is proved to return Ok exactly when: one value per query; for EVERY inner layer the gathered coset rows decommit against that layer\'s root (table_decommit_ok) and fold to the next layer; the last layer has exactly 2^bound coefficients; the coefficient polynomial evaluated at 1/x_inv equals the folded value at every surviving query. Missing witness leaves / layers give Err.',
+                technique='exact (<=>) postconditions on fri_verify, fri_verify_layers (spec layers_walk), verify_last_layer, compute_next_layer',
+                note='Not decided: rejection of functions of degree >= bound except with probability decaying in the number of queries (FRI soundness theorem).'),
     'C08': dict(quick=['core'], thorough=['core'],
                 claim='Every Transcript operation is proved equal to a spec of the absorb/squeeze state machine (squeeze = poseidon(digest,counter), counter+1; absorb = poseidon_many([digest+1]++msg), counter reset); protocol functions are proved to perform exactly the scripted operations in order.',
                 technique='postconditions over the transcript state machine on Transcript::*, pow commit, generate_queries',
